@@ -814,14 +814,18 @@ def item_fit_py(ctx, rng, t):
             'sample': {'op': 'fit_candidates', 'nf': nf, 'nc': nc, 'K1': K1, 'K2': K2, 'kind': case['kind'], 'complex': cplx}}
 
 
-def fit_float32_case(ctx, rng, t):
-    """single precision candidates: property oracle only"""
+def fit_float32_case(ctx, rng, t, fixed=None):
+    """single precision candidates: property oracle only (`fixed` = a case of the fixed corpus instead of a random one)"""
     from pyamg.aggregation.tentative import fit_candidates
-    cplx = t % 2 == 1
-    nf = int(rng.integers(2, 9))
-    K1, K2 = int(rng.choice([1, 2])), int(rng.choice([1, 2]))
-    agg, nc = rand_partition(rng, nf)
-    B = rand_candidates(rng, agg, nc, K1, K2, cplx, 'generic').astype(np.complex64 if cplx else np.float32)
+    if fixed is not None:
+        cplx, K1, K2, agg, nc, B = fixed
+        nf = len(agg)
+    else:
+        cplx = t % 2 == 1
+        nf = int(rng.integers(2, 9))
+        K1, K2 = int(rng.choice([1, 2])), int(rng.choice([1, 2]))
+        agg, nc = rand_partition(rng, nf)
+        B = rand_candidates(rng, agg, nc, K1, K2, cplx, 'generic').astype(np.complex64 if cplx else np.float32)
     T, R = fit_candidates(aggop_of(agg, nc), B)
     case = {'op': 'fit_candidates', 'nf': nf, 'nc': nc, 'K1': K1, 'K2': K2, 'agg': [int(a) for a in agg], 'complex': cplx, 'kind': 'float32',
             'B': cj(B.astype(complex if cplx else float)), 'dtype': str(B.dtype)}
@@ -1285,17 +1289,22 @@ def block_pattern_of(Xd, rpb, cpb):
     return i32(ip), i32(ix)
 
 
-def item_jacobi_filtered(ctx, rng, t):
+def item_jacobi_filtered(ctx, rng, t, fixed=None):
+    """`fixed` = a case of the fixed corpus (all inputs given) instead of a random one"""
     from pyamg.aggregation.smooth import jacobi_prolongation_smoother
-    cplx = t % 5 == 4
-    bs, nn, M, S, agg, nc, K2, B, T, Bc = smoother_setup(ctx, rng, t, cplx)
-    C, Cn = strength_pattern(rng, M, bs, sym=(t % 3 == 0))
-    weighting = ['local', 'diagonal', 'block'][t % 3]
-    omega = float(rng.choice([4.0 / 3.0, 1.0]))
-    degree = int(rng.choice([1, 2, 2, 3]))
+    if fixed is not None:
+        cplx, bs, nn, M, S, agg, nc, K2, B, T, Bc, C, Cn, weighting, omega, degree, np_seed = fixed
+    else:
+        cplx = t % 5 == 4
+        bs, nn, M, S, agg, nc, K2, B, T, Bc = smoother_setup(ctx, rng, t, cplx)
+        C, Cn = strength_pattern(rng, M, bs, sym=(t % 3 == 0))
+        weighting = ['local', 'diagonal', 'block'][t % 3]
+        omega = float(rng.choice([4.0 / 3.0, 1.0]))
+        degree = int(rng.choice([1, 2, 2, 3]))
+        np_seed = int(rng.integers(2**31))
     case = {'op': 'jacobi_filtered', 'weighting': weighting, 'omega': omega, 'degree': degree, 'bs': bs, 'nn': nn, 'complex': cplx,
             'M': cj(M), 'C': Cn.astype(int).tolist(), 'agg': [int(a) for a in agg], 'nc': nc, 'K2': K2, 'B': cj(B),
-            'np_seed': int(rng.integers(2**31))}
+            'np_seed': np_seed}
     np.random.seed(case['np_seed'])
     pats = []
     Tin = T.copy()
@@ -3134,8 +3143,43 @@ def part_e53(ctx, N):
     return items
 
 
+def fixed_corpus(ctx):
+    """a handful of deterministic inputs of the two known findings of this property (KNOWN_FINDINGS.txt), judged by the same
+    code as the random cases (fit_float32_case / item_jacobi_filtered); no draw from ctx.rng / ctx.np_rng"""
+    from pyamg.aggregation.tentative import fit_candidates
+    prng = np.random.default_rng(1010)
+    # (1) fit-single-precision-rank-deficient: float32 / complex64 candidates whose second column is a multiple of the first
+    #     on every aggregate (aggregates of three nodes, a singleton aggregate, nodal blocks K1 = 2)
+    b0 = np.array([0.3, 0.7, 1.1, 1.3, 0.9, 0.2])
+    for cplx, K1, agg, col0 in [
+            (False, 1, [0, 0, 0, 1, 1, 1], b0),
+            (True, 1, [0, 0, 0, 1, 1, 1], b0 * (1 + 0.5j)),
+            (False, 1, [0, 1, 1, 1, -1, 1], b0),
+            (False, 2, [0, 0, 1], b0)]:
+        dt = np.complex64 if cplx else np.float32
+        B = np.stack([col0, col0 * ((0.3 - 1.7j) if cplx else 3.0)], axis=1).astype(dt)
+        safe(ctx, lambda c, r, t, f=(cplx, K1, 2, np.array(agg), 2, B): fit_float32_case(c, r, t, fixed=f), None, -1)
+    # (2) jacobi-filter-zero-diagonal: filter_entries=True with a strength pattern without diagonal entries, weightings that
+    #     divide by the spectral radius of the scaled matrix
+    items = []
+    for weighting, bs, degree in [('diagonal', 1, 1), ('block', 1, 2), ('block', 2, 1), ('diagonal', 2, 2)]:
+        nn = 4
+        Mn = np.array([[4.0, -1, 0, 0], [-1, 4, -1, 0], [0, -1, 4, -1], [0, 0, -1, 4]])
+        M = np.kron(Mn, np.array([[2.0, 0.5], [0.5, 2.0]])) if bs == 2 else Mn
+        S = to_sparse(M, bs)
+        Cn = (Mn != 0) & ~np.eye(nn, dtype=bool)
+        C = gen.int32csr(sp.csr_array(Cn * 0.5))
+        agg, nc, K2 = np.array([0, 0, 1, 1]), 2, bs
+        B = prng.standard_normal((nn * bs, K2))
+        T, Bc = fit_candidates(aggop_of(agg, nc), B)
+        fx = (False, bs, nn, M, S, agg, nc, K2, B, T, Bc, C, Cn, weighting, 4.0 / 3.0, degree, 1010)
+        items.append(safe(ctx, lambda c, r, t, f=fx: item_jacobi_filtered(c, r, t, fixed=f), None, -1))
+    return items
+
+
 def run(ctx):
-    items = part_a(ctx, ctx.scale(200, 10000))
+    items = fixed_corpus(ctx)
+    items += part_a(ctx, ctx.scale(200, 10000))
     items += part_b(ctx, ctx.scale(150, 7500))
     items += part_e24(ctx, ctx.scale(60, 600))
     items += part_e48(ctx, ctx.scale(48, 960))
